@@ -91,11 +91,20 @@ Proof.
   unfold enq in *.
   destruct c; cbn in H.
   - (* produce *)
-    destruct (lock_held (fl s)) eqn:LH; try discriminate.
-    destruct (take_from i (pending s)) as [[x p']|] eqn:T; try discriminate. inv_some H.
+    destruct (take_from i (pending s)) as [[x p']|] eqn:T; try discriminate.
     destruct (take_from_spec _ _ _ _ T) as (A & B & C & D).
     assert (NS : stop s = false).
     { destruct (stop s) eqn:S; auto. rewrite (all_done_take_from _ i (I2 eq_refl)) in T. discriminate. }
+    destruct (is_abort x) eqn:AB.
+    { (* abort: carried out at the caller, nothing enqueued *)
+      inv_some H.
+      unfold Inv, enq; cbn [pending aclosed buffer fl stop applied wstore hist].
+      rewrite accepted_snoc. repeat split; auto; try solve [congruence].
+      + intros j. rewrite issued_snoc. destruct (Nat.eqb i j) eqn:E.
+        * apply Nat.eqb_eq in E. subst j. rewrite <- I7, C, <- app_assoc. reflexivity.
+        * apply Nat.eqb_neq in E. rewrite D by congruence. apply I7.
+      + intros e Hin. apply in_app_or in Hin. destruct Hin as [Hin | [<- | []]]; auto. cbn. lia. }
+    destruct (lock_held (fl s)) eqn:LH; try discriminate. inv_some H.
     unfold Inv, enq; cbn [pending aclosed buffer fl stop applied wstore hist].
     rewrite accepted_snoc. repeat split; auto;
       try solve [rewrite <- I1; rewrite !app_assoc; reflexivity];
@@ -286,10 +295,13 @@ Lemma producers_never_blocked : forall nrec w s i x l,
                  step_fn false (CProduce i) s1 = Some s2).
 Proof.
   intros nrec w s i x l _ P. destruct (take_from_enabled _ _ _ _ P) as [p' T].
-  destruct (lock_held (fl s)) eqn:LH.
+  destruct (is_abort x) eqn:AB; destruct (lock_held (fl s)) eqn:LH.
   - right. split; auto. destruct (fl s) eqn:F; try discriminate; (split; [reflexivity|]);
-      cbn; rewrite F; do 2 eexists; (split; [reflexivity|]); cbn; rewrite T; auto.
-  - left. split; auto. cbn. rewrite LH, T. eauto.
+      cbn; rewrite F; do 2 eexists; (split; [reflexivity|]); cbn; rewrite T, AB; auto.
+  - left. split; auto. cbn. rewrite T, AB. eauto.
+  - right. split; auto. destruct (fl s) eqn:F; try discriminate; (split; [reflexivity|]);
+      cbn; rewrite F; do 2 eexists; (split; [reflexivity|]); cbn; rewrite T, AB; auto.
+  - left. split; auto. cbn. rewrite T, AB, LH. eauto.
 Qed.
 
 (** in particular while the flusher is executing wrapped storage operations *)
@@ -317,7 +329,7 @@ Proof.
   intros nrec w s s' R S [c H]. destruct (reach_inv _ _ _ R) as (_ & I2 & _).
   specialize (I2 S). unfold dist.
   destruct c; cbn in H.
-  - destruct (lock_held (fl s)); try discriminate. rewrite (all_done_take_from _ i I2) in H. discriminate.
+  - rewrite (all_done_take_from _ i I2) in H. discriminate.
   - rewrite (all_done_take_from _ i I2) in H. discriminate.
   - destruct (fl s) eqn:F; try discriminate. destruct (Bool.eqb b (stop s)); try discriminate.
     inv_some H. cbn. rewrite S. cbn. auto.
@@ -370,9 +382,42 @@ Qed.
 Lemma strict_is_step : forall c s s', step_fn true c s = Some s' -> step_fn false c s = Some s'.
 Proof.
   intros c s s' H. destruct c; cbn in *; auto.
-  destruct (lock_held (fl s)); auto. destruct (take_from i (pending s)) as [[x p']|]; auto.
+  destruct (take_from i (pending s)) as [[x p']|]; auto. destruct (is_abort x); auto.
+  destruct (lock_held (fl s)); auto.
   destruct (is_write x && mem_nat (o_rec x) (aclosed s)); cbn in *; [discriminate | exact H].
 Qed.
+
+(** * abort_recording (T:52-59): carried out at the caller, the wrapped cassette never hears of it *)
+
+(** an abort request is never blocked - not even while the flusher holds the lock - and never refused *)
+Lemma abort_never_blocked : forall strict s i x p',
+  take_from i (pending s) = Some (x, p') -> is_abort x = true ->
+  exists s', step_fn strict (CProduce i) s = Some s'.
+Proof. intros strict s i x p' T A. cbn. rewrite T, A. eauto. Qed.
+
+(** what it changes: the AsyncRecording is closed; buffer, flusher, applied operations, wrapped cassette and the
+    enqueue order are untouched (in particular a pending save of that recording stays pending) *)
+Lemma abort_not_seen_by_wrapped : forall strict s s' i x p',
+  take_from i (pending s) = Some (x, p') -> is_abort x = true ->
+  step_fn strict (CProduce i) s = Some s' ->
+  buffer s' = buffer s /\ fl s' = fl s /\ applied s' = applied s /\ wstore s' = wstore s /\ enq s' = enq s /\
+  stop s' = stop s /\ aclosed s' = o_rec x :: aclosed s /\ pending s' = p'.
+Proof.
+  intros strict s s' i x p' T A H. cbn in H. rewrite T, A in H. inversion H; subst; clear H.
+  unfold enq; cbn [pending aclosed buffer fl stop applied wstore hist]. rewrite accepted_snoc. repeat split; reflexivity.
+Qed.
+
+(** synchronously an abort closes the recording object and stores nothing: the stored recordings are unchanged *)
+Lemma abort_sync_saved : forall st x, is_abort x = true ->
+  saved (fst (apply_op st x)) = saved st /\
+  (o_fail x = false -> nm_get (o_rec x) (live st) <> None -> snd (apply_op st x) = true).
+Proof.
+  intros st x A. unfold is_abort in A. unfold apply_op.
+  destruct (o_fail x); [split; [reflexivity | discriminate]|].
+  destruct (nm_get (o_rec x) (live st)) as [r|]; [|split; [reflexivity | intros _ N; congruence]].
+  destruct (o_kind x); try discriminate. split; reflexivity.
+Qed.
+
 
 Lemma run_schedule_reach : forall nrec w strict cs s s',
   reach nrec w s -> run_schedule strict cs s = Some s' -> reach nrec w s'.
